@@ -566,6 +566,9 @@ PROPS['C19']['explanation'] = ('Two layers. (1) Verus, input byte strings of ANY
 for _p in ('C18', 'C15'):
     PROPS[_p]['verus'] = PROPS[_p].get('verus', []) + ['c18_string_tables']
 
+# both element classifiers of the C14 filters are proved by Verus on the verbatim code (units c14_param_classifier, c18_string_tables)
+PROPS['C14']['verus'] = PROPS['C14'].get('verus', []) + ['c14_param_classifier', 'c18_string_tables']
+
 
 # Harnesses that were written and calibrated but cannot be discharged in this sandbox (CBMC exceeds the 24 GB address-space limit
 # or one hour, alone on the machine); they stay in /verif/kani for reference and are run by no check.  What they were meant to add is
